@@ -27,22 +27,114 @@ fn strides(case: &Value, params: &Params) -> Vec<isize> {
 
 /// An element whose order looks only at the key: Ord-equal elements are not identical.
 #[derive(Clone, Debug)]
-pub struct Keyed { pub key: i64, pub id: i64 }
+pub struct Keyed { pub key: i64, pub id: i64, pub poison: bool }
 impl PartialEq for Keyed { fn eq(&self, o: &Self) -> bool { self.key == o.key } }
 impl Eq for Keyed {}
 impl PartialOrd for Keyed { fn partial_cmp(&self, o: &Self) -> Option<std::cmp::Ordering> { Some(self.cmp(o)) } }
-impl Ord for Keyed { fn cmp(&self, o: &Self) -> std::cmp::Ordering { self.key.cmp(&o.key) } }
+impl Ord for Keyed { fn cmp(&self, o: &Self) -> std::cmp::Ordering { if self.poison || o.poison { panic!("comparison with a poisoned element") } self.key.cmp(&o.key) } }
+
+/// An element wider than a cache line (88 bytes) ordered by its first field.
+#[derive(Clone, Debug)]
+pub struct Wide { pub key: i64, pub fill: [u64; 10] }
+impl PartialEq for Wide { fn eq(&self, o: &Self) -> bool { self.key == o.key } }
+impl Eq for Wide {}
+impl PartialOrd for Wide { fn partial_cmp(&self, o: &Self) -> Option<std::cmp::Ordering> { Some(self.cmp(o)) } }
+impl Ord for Wide { fn cmp(&self, o: &Self) -> std::cmp::Ordering { self.key.cmp(&o.key) } }
 
 pub trait SortElem: Ord + Clone { fn ident(&self) -> i64; fn pad(k: usize) -> Self; }
 impl SortElem for i64 { fn ident(&self) -> i64 { 0 } fn pad(k: usize) -> Self { i64::MIN + 7 + k as i64 } }
-impl SortElem for Keyed { fn ident(&self) -> i64 { self.id } fn pad(k: usize) -> Self { Keyed { key: i64::MIN + 7 + k as i64, id: 900 + k as i64 } } }
+impl SortElem for Wide { fn ident(&self) -> i64 { 0 } fn pad(k: usize) -> Self { Wide { key: i64::MIN + 7 + k as i64, fill: [k as u64; 10] } } }
+impl SortElem for Keyed { fn ident(&self) -> i64 { self.id } fn pad(k: usize) -> Self { Keyed { key: i64::MIN + 7 + k as i64, id: 900 + k as i64, poison: false } } }
+
+/// A lane with ONE element whose comparisons panic (as `partial_cmp().expect()` wrappers do on NaN): whatever the routine
+/// was doing when the comparison unwound, the lane must still hold every element exactly once and nothing outside the
+/// view may have changed (identities, not values, are compared - no ordering is needed for that).
+fn run_poison(case: &Value, out: &mut Vec<Value>) {
+    let a = jints(&case["a"]);
+    let pp = jint(case, "pp") as usize;
+    let lane: Vec<Keyed> = a.iter().enumerate().map(|(p, &v)| Keyed { key: v, id: p as i64 + 1, poison: p == pp }).collect();
+    let stride = jint(case, "stride") as isize;
+    let mut st = Strided::new(&lane, stride, 2, |k| Keyed::pad(k));
+    let pm0: Vec<i64> = st.parent.iter().map(|x| x.id).collect();
+    let vin = json!({"ptr": if st.n == 0 { 0 } else { st.addr(0) }, "len": st.n, "stride": stride});
+    let routine = jstr(case, "routine", "partition");
+    let pos = jint(case, "pos") as usize;
+    verif_hooks::set_script(vec![], fallback(jstr(case, "fb", "drawn")));
+    let ok = match routine {
+        "partition" => guarded(|| { st.view_mut().partition_mut(pos); }).is_ok(),
+        "select" => guarded(|| { st.view_mut().get_from_sorted_mut(pos); }).is_ok(),
+        _ => { let idx = Array1::from(vec![pos, pos / 2]); guarded(|| { st.view_mut().get_many_from_sorted_mut(&idx); }).is_ok() }
+    };
+    verif_hooks::take_log();
+    let pm1: Vec<i64> = st.parent.iter().map(|x| x.id).collect();
+    let idafter: Vec<i64> = st.lane().iter().map(|x| x.id).collect();
+    out.push(json!({"ev": "poison", "routine": routine, "stride": stride, "pos": pos, "pp": pp, "a": a, "out": if ok {"ok"} else {"panic"},
+        "ida": lane.iter().map(|x| x.id).collect::<Vec<_>>(), "idafter": idafter, "pm0": pm0, "pm1": pm1, "vin": vin}));
+}
+
+/// The routines on a lane of the library's own `NotNone<i32>` element type (what `Option<i32>::remove_nan_mut` hands to the
+/// NaN-skipping quantile): ordering operators of that wrapper are part of the code under test.  Ranks are computed from the
+/// wrapped integers, never through the wrapper's own comparisons.
+fn run_notnone(case: &Value, out: &mut Vec<Value>) {
+    use ndarray_stats::MaybeNan;
+    let a = jints(&case["a"]);
+    let ev = jstr(case, "ev", "");
+    let stride = jint(&json!({"s": case["strides"][0]}), "s") as isize;
+    let lane: Vec<Option<i32>> = a.iter().map(|&v| Some(v as i32)).collect();
+    let mut st = Strided::new(&lane, stride, 2, |k| Some(-1000 - k as i32));
+    let rm = rank_map(&a);
+    let before = ranks_of(&rm, &a);
+    let script: Vec<usize> = jints(&case["pv"]).into_iter().map(|x| x as usize).collect();
+    let fb = fallback(jstr(case, "fb", "drawn"));
+    let rk = |v: i32| rank_of(&rm, &(v as i64));
+    let mut o = {
+        let mut v = <Option<i32> as MaybeNan>::remove_nan_mut(st.view_mut());
+        if v.len() != a.len() { panic!("harness: remove_nan_mut dropped a present value"); }
+        match ev {
+            "partition" => {
+                let p = to_usize(jint(case, "p"));
+                let r = guarded(|| v.partition_mut(p));
+                json!({"ev": "partition", "stride": stride, "a": before, "p": from_usize(p), "out": if r.is_ok() {"ok"} else {"panic"}, "k": r.map(from_usize).unwrap_or(0)})
+            }
+            "select" => {
+                let i = to_usize(jint(case, "i"));
+                verif_hooks::set_script(script.clone(), fb);
+                let r = guarded(|| v.get_from_sorted_mut(i));
+                let log = verif_hooks::take_log();
+                let pv: Vec<Value> = log.iter().map(|&(n, p)| json!([n, p])).collect();
+                json!({"ev": "select", "stride": stride, "a": before, "i": from_usize(i), "out": if r.is_ok() {"ok"} else {"panic"}, "ret": r.map(|x| rk(*x)).unwrap_or(0), "pv": pv})
+            }
+            _ => {
+                let idx: Vec<usize> = jints(&case["idx"]).into_iter().map(to_usize).collect();
+                let idx_arr = Array1::from(idx.clone());
+                verif_hooks::set_script(script.clone(), fb);
+                let r = guarded(|| v.get_many_from_sorted_mut(&idx_arr));
+                let log = verif_hooks::take_log();
+                let pv: Vec<Value> = log.iter().map(|&(n, p)| json!([n, p])).collect();
+                let (keys, vals): (Vec<i64>, Vec<i64>) = match &r { Ok(m) => m.iter().map(|(&k, x)| (from_usize(k), rk(**x))).unzip(), Err(()) => (vec![], vec![]) };
+                json!({"ev": "bulk", "stride": stride, "a": before, "idx": idx.iter().map(|&x| from_usize(x)).collect::<Vec<_>>(),
+                    "out": if r.is_ok() {"ok"} else {"panic"}, "keys": keys, "vals": vals, "pv": pv})
+            }
+        }.as_object().unwrap().clone()
+    };
+    let after: Vec<i64> = st.lane().iter().map(|x| match x { Some(v) => rk(*v), None => -7 }).collect();
+    o.insert("after".into(), json!(after));
+    o.insert("rep".into(), json!("notnone"));
+    o.insert("other_ok".into(), json!(true));
+    out.push(Value::Object(o));
+}
 
 pub fn run(case: &Value, params: &Params, out: &mut Vec<Value>) {
+    if jstr(case, "ev", "") == "poison" { return run_poison(case, out); }
+    if jstr(case, "rep", "") == "notnone" { return run_notnone(case, out); }
     let a = jints(&case["a"]);
     let k = a.iter().copied().max().unwrap_or(0);
     let mode = jstr(case, "vmap", "id");
     if case.get("keyed").and_then(|x| x.as_bool()).unwrap_or(false) {
-        let lane: Vec<Keyed> = a.iter().enumerate().map(|(p, &v)| Keyed { key: vmap_i64(v, k, mode), id: p as i64 + 1 }).collect();
+        let lane: Vec<Keyed> = a.iter().enumerate().map(|(p, &v)| Keyed { key: vmap_i64(v, k, mode), id: p as i64 + 1, poison: false }).collect();
+        run_t(case, params, lane, out);
+    } else if case.get("wide").and_then(|x| x.as_bool()).unwrap_or(false) {
+        let lane: Vec<Wide> = a.iter().map(|&v| Wide { key: vmap_i64(v, k, mode), fill: [v as u64; 10] }).collect();
         run_t(case, params, lane, out);
     } else {
         let lane: Vec<i64> = a.iter().map(|&v| vmap_i64(v, k, mode)).collect();
@@ -234,9 +326,14 @@ pub fn gen(seed: u64, count: usize, tier: &str, params: &Params) -> Vec<Value> {
         let script: Vec<i64> = if rng.chance(1, 3) { (0..rng.below(8)).map(|_| rng.below(1000) as i64).collect() } else { vec![] };
         let oor = oor_den > 0 && rng.chance(1, oor_den);
         // representation: mostly mutable views; sometimes a shared ArcArray1 handle or a borrowing CowArray
-        let rep = if params.get("reps").map(|s| s == "0").unwrap_or(false) { "view" } else { match rng.below(10) { 0 => "arc", 1 => "cow", _ => "view" } };
+        let rep = if params.get("reps").map(|s| s == "0").unwrap_or(false) { "view" } else { match rng.below(10) { 0 => "arc", 1 => "cow", 2 => "notnone", _ => "view" } };
         let n0 = cases.len();
         match *rng.pick(&kinds) {
+            "poison" => {
+                if n == 0 { continue; }
+                let routine = *rng.pick(&["partition", "select", "bulk"]);
+                cases.push(json!({"ev": "poison", "routine": routine, "a": a, "pp": rng.range(0, n - 1), "pos": rng.range(0, n - 1), "stride": *rng.pick(&[1, 2, -1, -3]), "fb": fb}));
+            }
             "partition" => {
                 let p = if oor || n == 0 { oor_pos(&mut rng, n) } else { rng.range(0, n - 1) };
                 cases.push(json!({"ev": "partition", "a": a, "p": p.min(BIG), "vmap": vmap, "strides": strides, "keyed": keyed}));
@@ -266,6 +363,10 @@ pub fn gen(seed: u64, count: usize, tier: &str, params: &Params) -> Vec<Value> {
             // the pivot already in front is the path on which no checked mutable access happens before the loop
             if cases[n0]["ev"] == "partition" && n > 0 && rng.chance(1, 2) { cases[n0]["p"] = json!(0); }
             cases[n0]["rep"] = json!(rep);
+            if rep == "notnone" { cases[n0]["vmap"] = json!("id"); cases[n0]["keyed"] = json!(false); }
+        }
+        // element types wider than a cache line
+        if rep == "view" && cases.len() > n0 && !keyed && rng.chance(1, 8) { cases[n0]["wide"] = json!(true);
         }
     }
     cases
